@@ -104,6 +104,9 @@ func verifIsGuard(r any) bool {
 	if !ok {
 		return false
 	}
+	if strings.HasPrefix(msg, "max depth 0 ") {
+		return false // an evaluation state without a depth limit set up is a defect, not the documented guard
+	}
 	return strings.HasPrefix(msg, "max depth") || strings.HasPrefix(msg, "would exceed memory")
 }
 
@@ -133,6 +136,21 @@ func VerifAtTopLevel(s *State, out io.Writer) string {
 		return "output-capture-depth-is-not-zero"
 	case s.Out != out:
 		return "output-writer-was-replaced"
+	case object.VerifNumReg(s.rootEnv) != 0:
+		return "root-scope-still-holds-registers"
 	}
 	return ""
 }
+
+// VerifBind binds name to a value in the current (root) environment (used by harnesses of other packages, which
+// draw their own nondeterministic values).
+func VerifBind(s *State, name string, v object.Object) { s.env.SetNoChecks(name, v, true) }
+
+// VerifIsGuard exports the classification of the two documented resource-guard panics.
+func VerifIsGuard(r any) bool { return verifIsGuard(r) }
+
+// VerifEval exports verifEval (macros expanded first, like EvalString).
+func VerifEval(s *State, prog ast.Node) object.Object { return verifEval(s, prog) }
+
+// VerifUsesIdent exports verifUsesIdent.
+func VerifUsesIdent(code, name string) bool { return verifUsesIdent(code, name) }
